@@ -127,4 +127,34 @@ theorem fold_append {σ τ : Type} (step : σ → τ → σ) (s : σ) (A B : Lis
     (A ++ B).foldl step s = B.foldl step (A.foldl step s) := by
   simp [List.foldl_append]
 
+-- contracts/justify.py cells_nth_facts : CELLS(s, a)[j] = (s[j], a)
+theorem cells_getElem? (s : List Ch) (a : A) (j : Nat) :
+    (cells (s, a))[j]? = (s[j]?).map (fun ch => (ch, a)) := by
+  simp [cells]
+
+-- contracts/justify.py NOBG (f = "remove bg"): mapping the attributes of every run commutes with the cell view and keeps
+-- the text, the number of runs and the total length
+def mapAtts (f : A → A) (xs : List (Chunk Ch A)) : List (Chunk Ch A) := xs.map (fun c => (c.1, f c.2))
+
+theorem view_map_atts (f : A → A) (xs : List (Chunk Ch A)) :
+    view (mapAtts f xs) = (view xs).map (fun p => (p.1, f p.2)) := by
+  induction xs with
+  | nil => simp [view, mapAtts]
+  | cons c cs ih =>
+    simp only [view, mapAtts] at ih ⊢
+    simp [List.flatMap_cons, cells, ih, List.map_append, List.map_map, Function.comp_def]
+
+theorem text_map_atts (f : A → A) (xs : List (Chunk Ch A)) : text (mapAtts f xs) = text xs := by
+  simp [text, mapAtts, List.flatMap_map]
+
+theorem length_map_atts (f : A → A) (xs : List (Chunk Ch A)) : (mapAtts f xs).length = xs.length := by
+  simp [mapAtts]
+
+theorem totlen_map_atts (f : A → A) (xs : List (Chunk Ch A)) : totlen (mapAtts f xs) = totlen xs := by
+  simp [totlen, mapAtts, List.map_map, Function.comp_def]
+
+-- SPACES(k)[j] = ' '
+theorem replicate_getElem? {α : Type} (n j : Nat) (x : α) (h : j < n) : (List.replicate n x)[j]? = some x := by
+  simp [h]
+
 end PyvcLemmas
